@@ -501,7 +501,7 @@ func (g *gen) declFor(T string, to []string, st string) Decl {
 	return Decl{S: "int", Val: g.leafInt(), Maps: []Mapping{{To: to}}}
 }
 
-var malformedKinds = []string{"bogus-field", "unexported", "intkey-map", "nested-ptr", "below-leaf", "leaf-target", "from-all-to-all", "src-leaf"}
+var malformedKinds = []string{"bogus-field", "unexported", "intkey-map", "nested-ptr", "below-leaf", "leaf-target", "from-all-to-all", "src-leaf", "ptr-iface"}
 
 func (g *gen) malformed(c *Case) string {
 	r := g.r
@@ -573,6 +573,22 @@ func (g *gen) malformed(c *Case) string {
 		m.From, m.To = nil, nil
 	case "src-leaf":
 		d.S, d.Val, d.Chunks = "int", g.leafInt(), nil
+	case "ptr-iface":
+		// a path continuing below a pointer to an interface (F-C15i); ending AT the pointer is fine
+		switch r.Intn(4) {
+		case 0:
+			c.T = "Outer"
+			c.Decls = []Decl{{S: "int", Val: g.leafInt(), Maps: []Mapping{{To: []string{"PA", "k"}}}}}
+		case 1:
+			c.T = "*any"
+			c.Decls = []Decl{{S: "int", Val: g.leafInt(), Maps: []Mapping{{To: []string{"k"}}}}}
+		case 2:
+			c.T = "map[string]any"
+			c.Decls = []Decl{{S: "Outer", Val: g.value("Outer", g.depth), Maps: []Mapping{{From: []string{"PA", "k"}, To: []string{"k"}}}}}
+		default:
+			c.T = "Outer"
+			c.Decls = []Decl{{S: "Outer", Val: g.value("Outer", g.depth), Maps: []Mapping{{From: []string{"PA"}, To: []string{"PA"}}, {From: []string{"N"}, To: []string{"N"}}}}}
+		}
 	}
 	return kind
 }
